@@ -49,6 +49,31 @@ func circCorpus() []*hc.Case {
 		}
 		cs = append(cs, circCase(circParams{Mode: "normal", Opener: openerSpec{Kind: "hystrix", N: 10, Dur: 10 * sec, Pct: 50, Vol: 3}, Closer: closerSpec{Kind: "never"}, Live: lv}, ops))
 	}
+	// the interrupt predicate replaced and then REMOVED by live reconfigurations: each call is judged by the predicate
+	// in force when it completes (none = every such error is an interrupt)
+	{
+		l := lv
+		l.IE = "false"
+		intr := func(ops *[]circOp, id int) {
+			*ops = append(*ops, circOp{K: "begin", ID: id, Call: &callSpec{HasRun: true, Entry: "execute"}}, circOp{K: "cancel", ID: id}, circOp{K: "endrun", ID: id, Res: "err", RK: id})
+		}
+		var ops []circOp
+		intr(&ops, 0)
+		l2 := l
+		l2.IE = "nil"
+		ops = append(ops, circOp{K: "setcfg", Live: &l2})
+		intr(&ops, 1)
+		l3 := l
+		l3.IE = "true"
+		ops = append(ops, circOp{K: "setcfg", Live: &l3})
+		intr(&ops, 2)
+		ops = append(ops, circOp{K: "setcfg", Live: &l2})
+		intr(&ops, 3)
+		l4 := l
+		ops = append(ops, circOp{K: "setcfg", Live: &l4})
+		intr(&ops, 4)
+		cs = append(cs, circCase(circParams{Mode: "normal", Opener: openerSpec{Kind: "never"}, Closer: closerSpec{Kind: "never"}, Live: l, NRun: 1}, ops))
+	}
 	// D7: OpenCircuit / CloseCircuit stamp notifications with the circuit's clock
 	cs = append(cs, circCase(circParams{Mode: "normal", Opener: openerSpec{Kind: "hystrix", N: 10, Dur: 10 * sec, Pct: 50, Vol: 20}, Closer: closerSpec{Kind: "hystrix", Sleep: sec, HalfOpen: 1, Required: 1}, Live: lv, NCirc: 2},
 		[]circOp{{K: "tick", D: 5}, {K: "open"}, {K: "open"}, {K: "tick", D: 7}, {K: "close"}, {K: "close"}, {K: "open"}}))
